@@ -770,8 +770,8 @@ func (fc *FCtx) script(o *Obligation) string {
 	return full
 }
 
-// scriptLite: the obligation without the lemmas of the `uses` clause and without recursive spec-function
-// definitions. Dropping assumptions is sound for unsat answers (sat answers of this variant are ignored); it keeps
+// scriptLite: the obligation without the quantified definitions of recursive spec functions (their one-step
+// unfoldings at the applications that occur in the clauses are kept as facts). Dropping assumptions is sound for unsat answers (sat answers of this variant are ignored); it keeps
 // e-matching from looping through recursive definitions on obligations that do not need them.
 func (fc *FCtx) scriptLite(o *Obligation) (string, int) {
 	n := 0
@@ -788,9 +788,6 @@ func (fc *FCtx) scriptLite(o *Obligation) (string, int) {
 
 func (fc *FCtx) liteDrops(i int, text string) bool {
 	src := fc.U.axiomSrc[i]
-	if strings.HasPrefix(src, "lemma ") {
-		return true
-	}
 	if strings.HasPrefix(src, "spec ") {
 		name := "spec_" + strings.TrimPrefix(src, "spec ")
 		return strings.Count(text, "("+name+" ") > 1
